@@ -17,7 +17,7 @@ for mp in sorted(glob.glob(os.path.join(V, "seeded", "*", "meta.json"))):
                  "yes" if c.get("suite_baseline_tests_all_pass") else "?",
                  "%s/%s" % (c.get("demo_exit_without_change"), c.get("demo_exit_with_change")),
                  {None: "-", 1: "caught", 0: "missed"}.get(fp, "missed"),
-                 "moot" if m.get("moot") else "not claimed" if m.get("not_claimed") else ("CAUGHT" if c.get("check_exit") == 1 else "missed"),
+                 "moot" if m.get("moot") else "not claimed" if m.get("not_claimed") else ("CAUGHT" if c.get("check_exit") == 1 else ("caught by %s" % m["caught_by"]["check"]) if m.get("caught_by") else "missed"),
                  ", ".join(c.get("check_violation_keys", [])[:2])[:150]))
 with open(os.path.join(V, "seeded", "INDEX.md"), "w") as f:
     f.write("# Independently written property-breaking changes (one sub-agent per property, given only\n"
@@ -26,7 +26,7 @@ with open(os.path.join(V, "seeded", "INDEX.md"), "w") as f:
             "(incl. `confirmed`: demo both ways, pinned suite with the change, quick check against a "
             "worktree carrying the change). Re-run: `tools/collect_seeds.py <dir>` or "
             "`tools/try_seed.py seeded/<id> [--inplace]`.\n\n"
-            "| id | change | needs to manifest | suite green | demo (without/with) | first pass (waves 2,3) | quick check now | first violation keys |\n"
+            "| id | change | needs to manifest | suite green | demo (without/with) | first pass (waves 2-6) | quick check now | first violation keys |\n"
             "|---|---|---|---|---|---|---|---|\n")
     for r in rows:
         f.write("| " + " | ".join(r) + " |\n")
